@@ -1,0 +1,12 @@
+//go:build verif
+
+package pogreb
+
+// VerifSetLimits sets the unexported tuning knobs of Options.
+// It is compiled only with the "verif" build tag and is used by the external
+// verification harness to make segment rollover and compaction reachable with small databases.
+func VerifSetLimits(opts *Options, maxSegmentSize, compactionMinSegmentSize uint32, compactionMinFragmentation float32) {
+	opts.maxSegmentSize = maxSegmentSize
+	opts.compactionMinSegmentSize = compactionMinSegmentSize
+	opts.compactionMinFragmentation = compactionMinFragmentation
+}
